@@ -201,7 +201,7 @@ class MDCPDPEnv(RL4COEnvBase):
         action_mask[..., :num_depot].scatter_(
             -1,
             current_depot,
-            action_mask[..., :num_depot].gather(-1, current_depot) | done,
+            action_mask[..., :num_depot].gather(-1, current_depot) | done[..., None],
         )
 
         # The reward is calculated outside via get_reward for efficiency, so we set it to 0 here
